@@ -47,6 +47,7 @@ type c16Order struct {
 	Kind  string `json:"kind"`  // http | tlsalpn | dns
 	Addr  int    `json:"addr"`  // index into the history's addresses (listener kinds)
 	Ident string `json:"ident"` // identifier (made unique per history at run time)
+	IP    bool   `json:"ip,omitempty"` // the identifier is an IP address (TLS-ALPN-01: the memory / token key is its reverse-mapping name)
 }
 
 type c16Step struct {
@@ -63,6 +64,9 @@ type c16In struct {
 	Orders     []c16Order `json:"orders"`
 	Steps      []c16Step  `json:"steps"`
 	Concurrent bool       `json:"concurrent,omitempty"` // orders run as free goroutines; Steps is one serialization
+	Override   bool       `json:"override,omitempty"`   // DNS01Solver.OverrideDomain is set: every DNS challenge uses that one record name
+	Cfg        *c16Cfg    `json:"cfg,omitempty"`        // an issuer configuration whose solver set is looked at (c16_cfg.go)
+	E2E        *c16E2E    `json:"e2e,omitempty"`        // whole orders through the real ACMEIssuer and the mock CA (c16_e2e.go)
 }
 
 type c16Obs struct {
@@ -85,6 +89,8 @@ type c16Env struct {
 	e2eBad  []string
 	hung    bool
 	seq     int
+	own     c15OwnAnswers
+	x       *c16E2EEnv
 }
 
 func c16NewEnv() *c16Env {
@@ -112,12 +118,18 @@ type c16Hist struct {
 	provider *doubles.DNSProviderDouble
 	dnsSolv  *certmagic.DNS01Solver
 	ik       string
+	override string          // DNS01Solver.OverrideDomain ("" none)
+	preMem   map[string]bool // e2e: activeChallenges keys that existed before the scenario (everything else is reported)
 }
 
 // setup instantiates the symbolic history: fresh ports, unique identifiers, real solver stacks.
 func (e *c16Env) setup(in c16In, r *rand.Rand) (*c16Hist, error) {
 	e.seq++
-	h := &c16Hist{in: in, provider: &doubles.DNSProviderDouble{}}
+	h := &c16Hist{in: in, provider: &doubles.DNSProviderDouble{}, preMem: map[string]bool{}}
+	// every activeChallenges entry that appears during the history is reported, under whatever key
+	for _, m := range certmagic.VerifActiveChallenges() {
+		h.preMem[m.Key] = true
+	}
 	e.backend.HonourCtx = in.Honour
 	for _, k := range e.backend.Keys() {
 		if strings.Contains(k, "challenge_tokens") {
@@ -151,8 +163,14 @@ func (e *c16Env) setup(in c16In, r *rand.Rand) (*c16Hist, error) {
 		}
 	}
 	h.dnsSolv = &certmagic.DNS01Solver{DNSManager: certmagic.DNSManager{DNSProvider: h.provider, PropagationTimeout: -1, Resolvers: []string{"127.0.0.1:1"}}}
+	if in.Override {
+		h.override = fmt.Sprintf("_acme-challenge.delegated-%d.example", e.seq)
+		h.dnsSolv.OverrideDomain = h.override
+		certmagic.VerifSeedZone(h.override, "example.")
+	}
 	issD := certmagic.NewACMEIssuer(e.cfg, certmagic.ACMEIssuer{CA: c16CA, Email: "x@example.com", Agreed: true, Logger: zap.NewNop(), DNS01Solver: h.dnsSolv})
-	h.ik = issD.IssuerKey()
+	h.ik = c15IssuerKeyOf(c16CA) // independent of the code under test (c15_indep.go)
+	e.own.issuerKey(issD, c16CA)
 	dnsStack, err := certmagic.VerifChallengeSolvers(issD, false)
 	if err != nil {
 		return nil, err
@@ -164,6 +182,12 @@ func (e *c16Env) setup(in c16In, r *rand.Rand) (*c16Hist, error) {
 		tok := c15Token(r)
 		ch := acme.Challenge{Type: typ, URL: fmt.Sprintf("https://ca.test/chal/%d", i), Status: "pending", Token: tok, KeyAuthorization: tok + "." + c15Token(r),
 			Identifier: acme.Identifier{Type: "dns", Value: ident}}
+		if o.IP {
+			ch.Identifier = acme.Identifier{Type: "ip", Value: fmt.Sprintf("10.%d.%d.%d", (e.seq>>8)&255, e.seq&255, i+1)}
+			if o.Ident == "v6" {
+				ch.Identifier.Value = fmt.Sprintf("2001:db8::%x:%x", e.seq, i+1)
+			}
+		}
 		h.chals = append(h.chals, ch)
 		if o.Kind == "dns" {
 			certmagic.VerifSeedZone(ch.DNS01TXTRecordName(), "example.")
@@ -171,7 +195,11 @@ func (e *c16Env) setup(in c16In, r *rand.Rand) (*c16Hist, error) {
 			continue
 		}
 		addr := h.addrs[o.Addr]
-		if stackFor[addr] == nil {
+		// every issuance builds its own solver objects (newACMEClient makes fresh httpSolver /
+		// tlsALPNSolver values that meet only in the package-level table keyed by address); the
+		// challenges of ONE order with several names go through the same objects. Both occur:
+		// order i gets fresh objects unless i%3 == 2 (then it shares those of the address's last order).
+		if stackFor[addr] == nil || i%3 != 2 {
 			hostp, portp, _ := net.SplitHostPort(addr)
 			var port int
 			fmt.Sscanf(portp, "%d", &port)
@@ -245,10 +273,10 @@ func (e *c16Env) observe(h *c16Hist, err error) c16Snap {
 	}
 	keys := map[string]bool{}
 	for _, c := range h.chals {
-		keys[certmagic.VerifChallengeKey(c)] = true
+		keys[c15KeyOf(c)] = true
 	}
 	for _, m := range certmagic.VerifActiveChallenges() {
-		if keys[m.Key] {
+		if (h.preMem == nil && keys[m.Key]) || (h.preMem != nil && !h.preMem[m.Key]) {
 			s.mem = append(s.mem, m)
 		}
 	}
@@ -406,6 +434,12 @@ func c16EncSnap(enc *emit.Enc, s c16Snap, h *c16Hist) c16Obs {
 
 // runHistory executes one history and emits its case.
 func (e *c16Env) runHistory(w *emit.Writer, in c16In, desc map[string]any, r *rand.Rand, e2eEvery int) error {
+	if in.E2E != nil {
+		return e.runE2E(w, in, desc, r)
+	}
+	if in.Cfg != nil {
+		return e.runCfg(w, *in.Cfg, desc)
+	}
 	h, err := e.setup(in, r)
 	if err != nil {
 		return err
@@ -426,7 +460,15 @@ func (e *c16Env) runHistory(w *emit.Writer, in c16In, desc map[string]any, r *ra
 		}
 		enc.Str(h.ik)
 		c15EncChal(enc, c15Chal{Type: ch.Type, Token: ch.Token, KeyAuth: ch.KeyAuthorization, IDType: ch.Identifier.Type, Ident: ch.Identifier.Value})
-		enc.Str(ch.DNS01TXTRecordName()).Str(ch.DNS01KeyAuthorization())
+		// record name and value, computed independently of the code under test
+		rn, rv := c16DNSRec(ch.Identifier.Value, ch.KeyAuthorization)
+		if h.override != "" {
+			rn = h.override
+		}
+		enc.Str(rn).Str(rv)
+		if ch.DNS01TXTRecordName() != "_acme-challenge."+ch.Identifier.Value || ch.DNS01KeyAuthorization() != rv {
+			e.e2eBad = append(e.e2eBad, "acme.Challenge.DNS01TXTRecordName / DNS01KeyAuthorization differ from RFC 8555 8.4")
+		}
 	}
 	var occ []string
 	for i, k := range in.Addrs {
@@ -545,6 +587,8 @@ func (e *c16Env) runHistory(w *emit.Writer, in c16In, desc map[string]any, r *ra
 			}
 		}
 	}
+	enc.Len(0) // no end-to-end items
+	enc.Len(0) // no configuration
 	for k, v := range desc {
 		if s, ok := v.(string); ok {
 			w.Hist(k + "=" + s)
@@ -627,14 +671,23 @@ func runC16(tier string, seed int64, outdir string, replay string) (retErr error
 	defer w.Close()
 	env := c16NewEnv()
 	defer env.stop()
+	defer env.closeE2E()
 	r := rand.New(rand.NewSource(seed))
 	thorough := tier == "thorough"
-	w.Meta.Rule = "distinct histories with at least two orders (sharing a listener address or a DNS record name, or side by side) or at least one injected fault"
+	w.Meta.Rule = "distinct histories with at least two orders (sharing a listener address or a DNS record name, or side by side) or at least one injected fault; sync points of end-to-end orders; issuer configurations of the enumerated grid (solver set)"
 	defer func() {
 		w.Meta.Oracles = append(w.Meta.Oracles, emit.OracleCheck{
 			Name:   fmt.Sprintf("a pending HTTP-01 / TLS-ALPN-01 challenge is answered over the network through the solver's own listener (%d validations)", env.e2eOK+len(env.e2eBad)),
 			OK:     len(env.e2eBad) == 0,
 			Detail: strings.Join(env.e2eBad, "; ")})
+		w.Meta.Oracles = append(w.Meta.Oracles, env.own.check())
+		if env.x != nil {
+			w.Meta.Oracles = append(w.Meta.Oracles, emit.OracleCheck{
+				Name:   fmt.Sprintf("acmez's calling discipline, observed on the recorded DNS-01 solver during real orders against the mock CA: per challenge Present once, [Wait], then CleanUp exactly once, also after a failed Present (%d challenges)", env.x.discN),
+				OK:     len(env.x.discBad) == 0,
+				Detail: strings.Join(env.x.discBad, "; ")})
+			w.Meta.Notes = append(w.Meta.Notes, fmt.Sprintf("end-to-end: %d Issue calls through the real ACMEIssuer against the mock CA, %d certificates issued", env.x.nOrders, env.x.issued))
+		}
 		w.Meta.Notes = append(w.Meta.Notes, "acmez discipline (oracle, from client.go solveChallenges of acmez v3.1.2): Present once per chosen authorization, CleanUp exactly once afterwards, also when Present failed")
 	}()
 	if replay != "" {
@@ -697,6 +750,53 @@ func runC16(tier string, seed int64, outdir string, replay string) (retErr error
 		return err
 	}
 
+	// ---- CFG. the solver set of every issuer configuration of the grid
+	for _, c := range c16CfgGrid() {
+		c := c
+		if err := run(c16In{Cfg: &c}, map[string]any{"shape": "config", "cfg_dns": fmt.Sprint(c.DNS), "cfg_host": c.ListenHost}); err != nil {
+			return err
+		}
+	}
+	// ---- E2E. whole orders through the real ACMEIssuer against the mock ACME CA
+	{
+		type sc struct {
+			shape, kind, variant string
+			honour               bool
+			quick                bool
+		}
+		var scs []sc
+		for _, kind := range []string{"http", "tlsalpn", "dns"} {
+			scs = append(scs, sc{"single", kind, "success", false, true}, sc{"single", kind, "ca-rejects", false, true},
+				sc{"single", kind, "cancel", true, true}, sc{"single", kind, "cancel", false, false},
+				sc{"two", kind, "both-succeed", false, true}, sc{"two", kind, "first-rejected", false, kind != "dns"}, sc{"two", kind, "first-cancelled", true, kind == "dns"},
+				sc{"multi", kind, "success", false, kind != "tlsalpn"})
+			if kind != "dns" {
+				scs = append(scs, sc{"single", kind, "bind-error", false, kind == "http"}, sc{"single", kind, "occupied-dumb", false, kind == "tlsalpn"},
+					sc{"single", kind, "occupied-answering", false, true}, sc{"single", kind, "store-fails", false, kind == "tlsalpn"},
+					sc{"single", kind, "token-delete-fails", false, false})
+			} else {
+				scs = append(scs, sc{"single", kind, "append-fails", false, true}, sc{"single", kind, "record-delete-fails", false, true},
+					sc{"single", kind, "cancel-in-wait", true, true})
+			}
+		}
+		scs = append(scs, sc{"retry", "both", "first-type-rejected", false, true})
+		rounds := 1
+		if thorough {
+			rounds = 3
+		}
+		for round := 0; round < rounds; round++ {
+			for _, x := range scs {
+				if !thorough && !x.quick {
+					continue
+				}
+				in := c16E2EIn(x.shape, x.kind, x.variant, x.honour != (round == 1))
+				if err := run(in, map[string]any{"shape": "e2e-" + x.shape, "e2e_kind": x.kind, "e2e_variant": x.variant}); err != nil {
+					return err
+				}
+			}
+		}
+	}
+
 	// ---- A. two orders on one address, every interleaving, every kind pairing
 	// (one address is never used for both kinds: the listener speaks the protocol of whoever opened
 	// it, and the two solvers signal "closed" through different flags; not a configuration that exists)
@@ -713,6 +813,19 @@ func runC16(tier string, seed int64, outdir string, replay string) (retErr error
 			map[string]any{"shape": "two-side-by-side"}); err != nil {
 			return err
 		}
+	}
+	// ---- A'. IP identifiers: under TLS-ALPN-01 the memory / token key is the reverse-mapping name, not the identifier
+	for k, il := range c16Interleavings(2) {
+		kind := []string{"tlsalpn", "http"}[k%2]
+		id2 := []string{"v4", "v6"}[(k/2)%2]
+		if err := run(c16In{Addrs: []string{"free"}, Orders: []c16Order{{Kind: kind, Ident: "v4", IP: true}, {Kind: kind, Ident: id2, IP: true}}, Steps: il},
+			map[string]any{"shape": "ip-identifiers"}); err != nil {
+			return err
+		}
+	}
+	if err := run(c16In{Addrs: []string{"free"}, Orders: []c16Order{{Kind: "tlsalpn", Ident: "v6", IP: true}}, Steps: []c16Step{{Order: 0}, {Clean: true, Order: 0, Cancel: true}}},
+		map[string]any{"shape": "ip-identifiers"}); err != nil {
+		return err
 	}
 	// ---- B. three orders, two share an address
 	il3 := c16Interleavings(3)
@@ -790,6 +903,27 @@ func runC16(tier string, seed int64, outdir string, replay string) (retErr error
 			}
 		}
 	}
+	// ---- E'. OverrideDomain (challenge delegated to another zone): all DNS challenges share ONE record name
+	for k, il := range c16Interleavings(2) {
+		steps := append([]c16Step(nil), il...)
+		switch k % 3 {
+		case 1:
+			steps[len(steps)-1].Cancel = true
+		case 2:
+			steps[1].Provider = true
+		}
+		if err := run(c16In{Override: true, Orders: []c16Order{O("dns", 0, "a"), O("dns", 0, "b")}, Steps: steps},
+			map[string]any{"shape": "dns-override"}); err != nil {
+			return err
+		}
+	}
+	for k := 0; k < 6; k++ {
+		il := il3[(k*13+5)%len(il3)]
+		if err := run(c16In{Override: true, Orders: []c16Order{O("dns", 0, "a"), O("dns", 0, "b"), O("dns", 0, "shared")}, Steps: il},
+			map[string]any{"shape": "dns-override"}); err != nil {
+			return err
+		}
+	}
 	nE := 20
 	if thorough {
 		nE = len(il3)
@@ -808,7 +942,7 @@ func runC16(tier string, seed int64, outdir string, replay string) (retErr error
 	}
 	for k := 0; k < nF; k++ {
 		n := 2 + r.Intn(3)
-		in := c16In{Honour: r.Intn(2) == 0, Addrs: []string{"free", "free"}}
+		in := c16In{Honour: r.Intn(2) == 0, Addrs: []string{"free", "free"}, Override: r.Intn(5) == 0}
 		if r.Intn(6) == 0 {
 			in.Addrs[1] = "occupied"
 		}
